@@ -19,7 +19,7 @@ fn fwd(op: &Op, _ctx: &dyn Context, operands: &mut dyn CoordinateSet) -> usize {
     let n = operands.len();
 
     // Nothing to do?
-    if grids.is_empty() {
+    if grids.is_empty() && use_null_grid {
         return n;
     }
 
